@@ -63,6 +63,14 @@ PROPS = {
             "remote timestamps never tie with local detection stamps (ties are decided by C01/C02)",
         ],
     },
+    "C13": {
+        "level": "exploration",
+        "tests": [T("TestC13Sweeper", "kv", 1500, 96000, shards=16)],
+        "assumptions": [
+            "wall-clock cutoffs are bracketed by the times read before and after the pass; generated timestamps keep a 10 s margin from the cutoff (the exact >= vs > at a nanosecond boundary of the real clock is not forceable)",
+            "entries the application writes during the pass may or may not be visited afterwards: only their byte integrity is asserted",
+        ],
+    },
     "C14": {
         "level": "exploration",
         "tests": [
